@@ -50,7 +50,7 @@ def transformations(tier):
         T.append(("rigid", "translate", k))
     for k in ("reversed", "rotated", "sorted", "sorted-desc"):
         T.append(("order", k, None))
-    for k in ("chains", "plus1000", "from-300", "icode-pairs", "icode-triples", "label-differs"):
+    for k in ("chains", "plus1000", "from-300", "around-zero", "icode-pairs", "icode-triples", "label-differs"):
         T.append(("relabel", k, None))
     T.append(("format", "pdb", None))
     return T
@@ -138,6 +138,26 @@ def abstract_of(case):
                 seen.add(k)
                 t2.append(a)
         t = t2
+        if not corpus.single_conformer(t):
+            # partial-occupancy copies of residues written as separate, overlapping residues (488d.pdb): the reader keeps one copy of atoms closer than
+            # 0.5 A by design (C08). The input of this check is made single-conformer by dropping, whole, every residue that has an atom within 0.5 A
+            # of an atom of a residue with higher occupancy (or listed earlier at equal occupancy).
+            import numpy as np
+            from scipy.spatial import cKDTree
+
+            pts = np.array([[float(a["x"]), float(a["y"]), float(a["z"])] for a in t])
+            rid = [(a["chain"], a["resseq"], a["icode"], a["resname"]) for a in t]
+            first = {}
+            for k, r in enumerate(rid):
+                first.setdefault(r, k)
+            drop = set()
+            for i, j in sorted(cKDTree(pts).query_pairs(0.5)):
+                if rid[i] == rid[j]:
+                    continue
+                oi, oj = float(t[i]["occ"]), float(t[j]["occ"])
+                loser = rid[j] if (oi, -first[rid[i]]) >= (oj, -first[rid[j]]) else rid[i]
+                drop.add(loser)
+            t = [a for a, r in zip(t, rid) if r not in drop]
     else:
         s = fam.structure_of(case["lattice"])
         t = []
@@ -218,6 +238,11 @@ def apply_abstract(t, tr):
             lo = min(a["resseq"] for a in out)
             for a in out:
                 a["resseq"] = a["resseq"] - lo - 300
+        elif kind == "around-zero":
+            # the lowest number becomes -1, so that 0 is a residue number of the structure
+            lo = min(a["resseq"] for a in out)
+            for a in out:
+                a["resseq"] = a["resseq"] - lo - 1
         elif kind in ("icode-pairs", "icode-triples"):
             # order-preserving: consecutive residues of a chain share a number and differ by insertion code only (17, 17A, 17B, 18, ...)
             g = 2 if kind == "icode-pairs" else 3
